@@ -167,8 +167,8 @@ func c18CheckOn(pcr *PreConfigRoute, c c18Case, reps int, firstSeen *c18Answer) 
 	return "", len(w), kind
 }
 
-var c18Patterns = []string{"a.example.com", "b.example.com", "aXexample.com", "example.com", "*.example.com", "a.*", "*.com", "*", "*example.com", "default"}
-var c18Hosts = []string{"a.example.com", "b.example.com", "aXexample.com", "example.com", "x.org", "a.b.example.com", "a.example.comX", "A.example.com", ""}
+var c18Patterns = []string{"a.example.com", "b.example.com", "aXexample.com", "example.com", "*.example.com", "a.*", "*.com", "*", "*example.com", "default", "10.20.*"}
+var c18Hosts = []string{"a.example.com", "b.example.com", "aXexample.com", "example.com", "x.org", "a.b.example.com", "a.example.comX", "A.example.com", "", "10.20.1.7", "10.2.0.1"}
 
 func c18Desc(c c18Case) string {
 	var sb strings.Builder
@@ -218,7 +218,7 @@ func c18Record(c c18Case, nw int, kind string) {
 }
 
 func TestC18(t *testing.T) {
-	V.Rule("unit: route tables (exhaustive: all ordered tables of <=3 entries and all/sampled 4-entry tables over 10 patterns x 9 hosts; random: 5-30 generated entries, hosts derived from patterns by substitution and near-miss edits) looked up 50x (3x when at most one wildcard matches) on a fresh table, and as interleaved lookup histories (all hosts forward/backward/forward; random other hosts in between) on one table object; non-trivial = >=2 wildcards match, or literal and wildcard both match, or a dotted look-alike; distinct by (table, host)")
+	V.Rule("unit: route tables (exhaustive: all ordered tables of <=3 entries and all/sampled 4-entry tables over 11 patterns x 11 hosts (names and IPv4 literals); random: 5-30 generated entries, hosts derived from patterns by substitution and near-miss edits) looked up 50x (3x when at most one wildcard matches) on a fresh table, and as interleaved lookup histories (all hosts forward/backward/forward; random other hosts in between) on one table object; non-trivial = >=2 wildcards match, or literal and wildcard both match, or a dotted look-alike; distinct by (table, host)")
 	V.Assume("patterns and hosts use host-name characters and '*' only")
 	V.Require("interleaved lookups on one table", "rule:literal", "rule:wildcard", "rule:default", "rule:none", "ties:>=2 wildcards match", "literal and wildcard both match", "dotted look-alike")
 
@@ -326,7 +326,7 @@ func TestC18(t *testing.T) {
 		V.Extra("exhaustive_subspace", "all ordered tables of <=3 entries (4-entry tables: "+map[bool]string{true: "all orders", false: "one order per combination"}[full4]+") over the pattern universe x all hosts of the universe")
 	})
 
-	labels := []string{"a", "b", "ab", "example", "com", "org", "net", "x", "sip", "pbx1", "gw-2", "a1"}
+	labels := []string{"a", "b", "ab", "example", "com", "org", "net", "x", "sip", "pbx1", "gw-2", "a1", "10", "20", "192", "7"}
 	genLabel := rapid.SampledFrom(labels)
 	genName := rapid.Custom(func(rt *rapid.T) string {
 		k := rapid.IntRange(1, 4).Draw(rt, "nlabels")
